@@ -25,6 +25,7 @@ from .. import gen
 
 ID = "C13"
 LEVEL = "exploration"
+REPLAY_ENV = {"NUMBA_NUM_THREADS": "16"}
 RULE = ("one case = one (query list with mixed lengths 1-25, target set, "
 	"reverse_complement, hashing, n_score_bins) configuration; each is "
 	"executed as: every query alone on one thread (baseline), the full list "
@@ -42,7 +43,8 @@ ASSUMPTIONS = [
 	"makes schedule-dependent stale reads deterministic instead",
 ]
 REQUIRED = {"trace_events": 200, "longer_to_shorter_transitions": 20,
-	"poisoned_runs": 20, "executions_compared": 100, "nearest_rows_checked": 50}
+	"poisoned_runs": 20, "executions_compared": 100, "nearest_rows_checked": 50,
+	"boundscheck_runs": 4}
 TECHNIQUE = ("runtime monitoring: bitwise differential vs single-query "
 	"single-thread baseline over thread counts / orders / subsets; guarded "
 	"in-kernel trace hook (per-thread histories) and poison differential "
@@ -130,6 +132,8 @@ def run_case(cls, params, rec):
 	import numba
 	if cls.startswith("annotate"):
 		return case_annotate(cls, params, rec)
+	if cls.startswith("pyfunc-boundscheck"):
+		return case_boundscheck(cls, params, rec)
 	TT = tt()
 	Qs, Ts = make_case(params)
 	nq, nt = len(Qs), len(Ts)
@@ -298,6 +302,56 @@ def run_case(cls, params, rec):
 	rec.held(cls, params, nontrivial=transitions > 0)
 
 
+def case_boundscheck(cls, params, rec):
+	"""The parallel driver's pure-Python body (.py_func) with the inner
+	kernels compiled under NUMBA_BOUNDSCHECK=1: an out-of-range index in
+	_integer_distances_and_histogram / _p_value_backgrounds / _p_values /
+	_merge_rc_results raises IndexError instead of touching foreign memory
+	(inside the compiled prange body the exception would be swallowed)."""
+	import os
+	TT = tt()
+	if os.environ.get("NUMBA_BOUNDSCHECK") != "1":
+		rec.inconclusive(cls, params, "NUMBA_BOUNDSCHECK not set")
+		return
+	Qs, Ts = make_case(params)
+	kw = dict(n_score_bins=params["n_score_bins"],
+		n_target_bins=params["n_target_bins"],
+		reverse_complement=params["rc"])
+	desc = {"query_lengths": [q.shape[1] for q in Qs], "target_lengths":
+		[t.shape[1] for t in Ts], "rc": params["rc"], "n_score_bins":
+		params["n_score_bins"], "n_target_bins": params["n_target_bins"],
+		"grid": params["grid"]}
+	orig = TT._tomtom
+	if not hasattr(orig, "py_func"):
+		rec.inconclusive(cls, params, "_tomtom has no py_func")
+		return
+	set_poison(TT, None)
+	st0, base = run_tomtom(TT, Qs, Ts, kw, 1)
+	TT._tomtom = orig.py_func
+	try:
+		st, val = run_tomtom(TT, Qs, Ts, kw, 1)
+		stn, valn = run_tomtom(TT, Qs, Ts, dict(kw, n_nearest=min(2,
+			len(Ts))), 1)
+	finally:
+		TT._tomtom = orig
+	take_events(TT)
+	for s_, v_ in ((st, val), (stn, valn)):
+		if s_ == "raise":
+			rec.violation(cls, params, dict(desc, what="bounds-checked "
+				"kernels raised", error=repr(v_)[:300]),
+				mech="C13/out-of-bounds-access" if isinstance(v_, IndexError)
+				else "C13/raised")
+			return
+	rec.count("boundscheck_runs")
+	if st0 == "ok" and not (val.shape == base.shape and numpy.allclose(val,
+		base, rtol=1e-12, atol=1e-12, equal_nan=True)):
+		rec.violation(cls, params, dict(desc, what="bounds-checked "
+			"sequential driver gives another result than the compiled "
+			"parallel driver"), mech="C13/driver-differs")
+		return
+	rec.held(cls, params, nontrivial=True)
+
+
 def case_annotate(cls, params, rec):
 	"""annotate_seqlets on a subset / permutation of seqlets gives the rows of
 	the full call."""
@@ -371,11 +425,24 @@ def plan(tier, seed):
 		units.append({"cls": "configs", "k0": k0, "k1": min(n, k0 + per),
 			"seed": seed, "weight": per, "env": env, "tier": tier,
 			"hashing": i % 3 == 1})
+	nb = 2 if tier == "quick" else 16
+	for j in range(nb):
+		units.append({"cls": "boundscheck", "k0": j * 6, "k1": j * 6 + 6,
+			"seed": seed, "weight": 1, "tier": tier, "hashing": j % 2 == 1,
+			"env": {"NUMBA_BOUNDSCHECK": "1", "NUMBA_NUM_THREADS": "1"}})
 	return units
 
 
 def run_unit(unit, rec):
 	import numba
+	if unit["cls"] == "boundscheck":
+		for k in range(unit["k0"], unit["k1"]):
+			params = gen_params(unit["seed"], 500000 + k)
+			params["n_q"] = min(params["n_q"], 8)
+			params["n_target_bins"] = (params["n_target_bins"] or 20) if \
+				unit.get("hashing") else None
+			run_case("pyfunc-boundscheck", params, rec)
+		return
 	for k in range(unit["k0"], unit["k1"]):
 		params = gen_params(unit["seed"], k)
 		if unit["tier"] == "quick":
